@@ -99,7 +99,7 @@ func loadExample(anDir, name string, imp types.Importer) (*typedExample, error) 
 	for fn, src := range files {
 		for _, is := range p0.Imports {
 			if strings.HasPrefix(is.Path, gooseMod+"/internal/") {
-				src = strings.ReplaceAll(src, `"`+is.Path+`"`, `"`+modPath+"/lib_"+pkgBase(is.Path)+`"`)
+				src = strings.ReplaceAll(src, `"`+is.Path+`"`, `"`+modPath+"/lib/"+pkgBase(is.Path)+`"`)
 			}
 		}
 		te.srcs[fn] = src
